@@ -2,7 +2,7 @@
 import WD.Model.Polling
 import WD.Spec.PollingSpec
 import WD.Props.C09
-namespace WD.Proofs
+namespace WD.ProofsPoll
 open WD WD.Poll
 
 theorem walkSubs_tolerant (root : String) : (nodes : List VNode) → tolerantBelow nodes = true →
@@ -188,4 +188,4 @@ theorem root_gone (em : Emitter) (root : VNode) (e : Err) (hs : em.stopped = fal
   intro root'
   simp [Emitter.poll]
 
-end WD.Proofs
+end WD.ProofsPoll
